@@ -537,3 +537,73 @@ func (s *Str) Debug() string {
 	sb.WriteString("]")
 	return sb.String()
 }
+
+// matchAtSym: the symbolic string p occurs in s at constant offset i.
+func (c *Ctx) matchAtSym(s *Str, i int, p *Str) *Term {
+	// i + len(p) <= len(s)
+	ok := c.Ule(c.Add(c.L(i), p.Len), s.Len)
+	for j := 0; j < len(p.Ch); j++ {
+		live := c.Ult(c.L(j), p.Len)
+		var same *Term
+		if i+j < len(s.Ch) {
+			same = c.Eq(s.Ch[i+j], p.Ch[j])
+		} else {
+			same = c.F
+		}
+		ok = c.And(ok, c.Or(c.Not(live), same))
+	}
+	return ok
+}
+
+// IndexOfSym returns the first index of the symbolic string p in s (signed, -1 if absent).
+func (c *Ctx) IndexOfSym(s, p *Str) *Term {
+	r := c.BV(LW, mask(LW))
+	for i := len(s.Ch); i >= 0; i-- {
+		r = c.Ite(c.matchAtSym(s, i, p), c.L(i), r)
+	}
+	return r
+}
+
+// LastIndexOfSym returns the last index of the symbolic string p in s (signed, -1 if absent).
+func (c *Ctx) LastIndexOfSym(s, p *Str) *Term {
+	r := c.BV(LW, mask(LW))
+	for i := 0; i <= len(s.Ch); i++ {
+		r = c.Ite(c.matchAtSym(s, i, p), c.L(i), r)
+	}
+	return r
+}
+
+// IndexOfCh returns the first index of the symbolic byte b in s (signed, -1 if absent).
+func (c *Ctx) IndexOfCh(s *Str, b *Term) *Term {
+	r := c.BV(LW, mask(LW))
+	for i := len(s.Ch) - 1; i >= 0; i-- {
+		r = c.Ite(c.And(c.Ult(c.L(i), s.Len), c.Eq(s.Ch[i], b)), c.L(i), r)
+	}
+	return r
+}
+
+// LastIndexOfCh returns the last index of the symbolic byte b in s (signed, -1 if absent).
+func (c *Ctx) LastIndexOfCh(s *Str, b *Term) *Term {
+	r := c.BV(LW, mask(LW))
+	for i := 0; i < len(s.Ch); i++ {
+		r = c.Ite(c.And(c.Ult(c.L(i), s.Len), c.Eq(s.Ch[i], b)), c.L(i), r)
+	}
+	return r
+}
+
+// IndexAnyOf / LastIndexAnyOf: first / last position holding a byte of the constant set.
+func (c *Ctx) IndexAnyOf(s *Str, set string) *Term {
+	r := c.BV(LW, mask(LW))
+	for i := len(s.Ch) - 1; i >= 0; i-- {
+		r = c.Ite(c.And(c.Ult(c.L(i), s.Len), c.CharIn(s.Ch[i], set)), c.L(i), r)
+	}
+	return r
+}
+
+func (c *Ctx) LastIndexAnyOf(s *Str, set string) *Term {
+	r := c.BV(LW, mask(LW))
+	for i := 0; i < len(s.Ch); i++ {
+		r = c.Ite(c.And(c.Ult(c.L(i), s.Len), c.CharIn(s.Ch[i], set)), c.L(i), r)
+	}
+	return r
+}
